@@ -119,7 +119,7 @@ Definition deliteral (b : bval) : bval :=
   match b with
   | VKnown o => VTyped (class_of o)
   | VTuple _ => VTyped CTuple
-  | VGen GSeqPat => VTyped CSequence   (* unannotate *)
+  | VGen g => VTyped (gen_cls g)   (* unannotate; after the C02 repair every GenericValue is compared by its class *)
   | _ => b
   end.
 
@@ -377,7 +377,12 @@ Definition nominal_cls (b : bval) : cls :=
   | _ => CObject
   end.
 
-(* ConstraintType.is_instance (assert_is_instance): real isinstance / issubclass, no promotion *)
+(* stacked_scopes._is_promotable_to (C02 repair): instances of c belong to t through the implicit
+   int -> float -> complex promotion *)
+Definition promotable (c t : cls) : bool := (cls_eqb t CFloat || cls_eqb t CComplex) && sub_art c t.
+
+(* ConstraintType.is_instance (assert_is_instance): real isinstance / issubclass; since the C02
+   repair the positive branch also accepts a class that is promoted to the declared one *)
 Definition apply_isinstance (c : cls) (positive : bool) (s : sval) : list sval :=
   match sbase s with
   | VAny => if positive then [plain (VTyped c)] else [plain VAny]
@@ -385,7 +390,7 @@ Definition apply_isinstance (c : cls) (positive : bool) (s : sval) : list sval :
   | VSub t => if Bool.eqb (isinst (OClass t) c) positive then [s] else []
   | b =>
       let t := nominal_cls b in
-      if positive then (if sub t c then [s] else if sub c t then [plain (VTyped c)] else [])
+      if positive then (if sub t c then [s] else if sub c t || promotable c t then [plain (VTyped c)] else [])
       else (if sub t c then [] else [s])
   end.
 
@@ -396,10 +401,10 @@ Definition apply_isvalue (l : obj) (positive : bool) (s : sval) : list sval :=
     | VAny => [plain (VKnown l)]
     | VKnown o => if obj_eqb o l then [s] else []
     | VSub t => match l with
-                | OClass k => if sub k t then [plain (VKnown l)] else []
+                | OClass k => if sub k t || promotable k t then [plain (VKnown l)] else []
                 | _ => []
                 end
-    | b => if isinst l (nominal_cls b) then [plain (VKnown l)] else []
+    | b => if isinst l (nominal_cls b) || promotable (class_of l) (nominal_cls b) then [plain (VKnown l)] else []
     end
   else
     match sbase s with
@@ -588,15 +593,16 @@ Definition narrow (v : value) (c : cond) (pol : bool) : value :=
 (* visit_BoolOp visits its second operand in a sub-scope where x is already narrowed by the
    first one (by its negation for `or`) and then merges the sub-scopes back: the value of x the
    whole condition's constraint is applied to is V plus that narrowed copy *)
-Fixpoint boolop_merge (v : value) (c : cond) : value :=
+Fixpoint boolop_merge (v : value) (c : cond) {struct c} : value :=
   match c with
   | CNot c => boolop_merge v c
-  | CAnd a _ => v ++ narrow v a true
-  | COr a _ => v ++ narrow v a false
+  | CAnd a b => boolop_merge v a ++ boolop_merge (narrow v a true) b
+  | COr a b => boolop_merge v a ++ boolop_merge (narrow v a false) b
   | _ => v
   end.
 
-(* what `if <c>: ... else: ...` makes of x end to end (for and/or whose operands are not and/or) *)
+(* what `if <c>: ... else: ...` makes of x end to end; nested and/or operands merge their own
+   narrowed copies inside the sub-scope they are visited in *)
 Definition narrow_e2e (v : value) (c : cond) (pol : bool) : value :=
   constrain (boolop_merge v c) (if pol then cond_acon c else invert (cond_acon c)).
 
@@ -730,3 +736,67 @@ Definition model_dispatch : list ctype :=
 
 Definition interp (r : pres) (s : sval) (pattern : list sval) : list sval :=
   match r with RDrop => [] | RValue => [s] | RPattern => pattern end.
+
+(* ------------------------------------------------------------------ *)
+(* construction sites: how source conditions become constraints.  Gen/NarrowSrc.v reads these
+   constants off the ast of name_check_visitor / implementation / signature / patma on every run;
+   Proofs/NarrowSrcTie.v proves cond_acon (and invert / apply_acon / pred_equals / pred_in) equal to
+   what the generated constants prescribe. *)
+Inductive cmpkind := KIs | KIsNot | KEq | KNotEq | KIn | KNotIn.
+Inductive pkind := PKEquals (use_is : bool) | PKIn.
+Inductive wrapkind := WTyped | WSub.
+Inductive ackind := IsAnd | IsOr.
+Inductive eres := EDrop | EValue | ELiteral | EBoolCompl | EEnumCompl.
+Inductive ires := IDrop | IValue | IAcceptable | IEnumCompl.
+
+(* the constraint a comparison `x <op> literal(s)` yields, from a (predicate kind, positive) row *)
+Definition compare_leaf (row : pkind * bool) (ls : list obj) : constr :=
+  match fst row with
+  | PKEquals use_is => KPred (PEquals (match ls with l :: _ => l | [] => ONone end) use_is) (snd row)
+  | PKIn => KPred (PIn ls) (snd row)
+  end.
+(* the condition a comparison operator stands for *)
+Definition compare_cond (k : cmpkind) (ls : list obj) : cond :=
+  let l := match ls with l :: _ => l | [] => ONone end in
+  match k with
+  | KIs => CIs l | KIsNot => CNot (CIs l)
+  | KEq => CEq l | KNotEq => CNot (CEq l)
+  | KIn => CIn ls | KNotIn => CNot (CIn ls)
+  end.
+
+Definition wrap (w : wrapkind) (c : cls) : bval := match w with WTyped => VTyped c | WSub => VSub c end.
+Definition isassign_leaf (site : wrapkind * ctype * bool * bool) (cs : list cls) : option constr :=
+  match site with
+  | (w, T_predicate, positive, po) => Some (KPred (PIsAssignable (map (wrap w) cs) po) positive)
+  | _ => None
+  end.
+
+Definition equals_skel (is_known opres positive asg pat_bool is_typed typ_bool pat_enum typ_same : bool) : eres :=
+  if is_known then (if opres then EValue else EDrop)
+  else if positive then (if asg then ELiteral else EDrop)
+  else if pat_bool then (if is_typed && typ_bool then EBoolCompl else EValue)
+  else if pat_enum then (if is_typed && typ_same then EEnumCompl else EValue)
+  else EValue.
+
+Definition in_skel (is_known inres positive acc_nonempty pat_enum is_typed typ_same : bool) : ires :=
+  if is_known then (if Bool.eqb inres positive then IValue else IDrop)
+  else if positive then (if acc_nonempty then IAcceptable else IDrop)
+  else if pat_enum then (if is_typed && typ_same then IEnumCompl else IValue)
+  else IValue.
+
+Definition is_known_b (b : bval) : bool := match b with VKnown _ => true | _ => false end.
+Definition is_typed_b (b : bval) : bool :=
+  match b with VTyped _ | VTuple _ | VGen _ => true | _ => false end.
+Definition known_obj (b : bval) : obj := match b with VKnown o => o | _ => ONone end.
+Definition is_bool_lit (l : obj) : bool := match l with OBool _ => true | _ => false end.
+Definition is_enum_lit (l : obj) : bool := match l with OEnum _ _ => true | _ => false end.
+Definition bool_compl (l : obj) : obj := match l with OBool p => OBool (negb p) | _ => l end.
+
+Definition einterp (r : eres) (s : sval) (l : obj) : list sval :=
+  match r with
+  | EDrop => []
+  | EValue => [s]
+  | ELiteral => [plain (VKnown l)]
+  | EBoolCompl => [plain (VKnown (bool_compl l))]
+  | EEnumCompl => other_members (class_of l) (enum_size (class_of l)) (fun m => obj_eqb m l)
+  end.
